@@ -175,6 +175,14 @@ func c11Run(c *core.Ctx, cf c11cfg, caseID string, stream uint64) {
 	inst := "Pool[" + t.Name + "]"
 	runtime.GOMAXPROCS(cf.Procs)
 	shared := t.PoolAlloc(cf.Alloc)
+	if cf.Procs > 2 && stream%2 == 0 {
+		// the allocator is created while few processors are configured and used
+		// after their number was raised
+		runtime.GOMAXPROCS(1 + int(stream/2)%2)
+		shared = t.PoolAlloc(cf.Alloc)
+		runtime.GOMAXPROCS(cf.Procs)
+		c.Obs("configurations_whose_allocator_was_created_under_a_lower_GOMAXPROCS", 1)
+	}
 	// one read-only source buffer (not a pool buffer) that every goroutine may
 	// append to the buffers it holds
 	var fillSrc dyn.Buf
@@ -408,11 +416,11 @@ func c11Worker(w *c11worker, pool dyn.Pool, t *dyn.TypeOps, cf c11cfg, r *core.R
 			// a holder of two buffers fills the first up to its capacity and
 			// appends (part of) it to the second, still empty of its own
 			// samples, before using the second: both stay separate buffers
-			if !filled && i > 0 && al.Channels*al.Capacity > 0 && al.Length < al.Capacity && r.Chance(1, 3) {
-				prev := held[i-1]
+			if !filled && len(held) > 0 && al.Channels*al.Capacity > 0 && al.Length < al.Capacity && r.Chance(1, 3) {
+				prev, prevStamp := held[len(held)-1], stamps[len(stamps)-1]
 				if p, msg := core.Guard(func() {
 					for prev.Len() < prev.Cap() {
-						prev.AppendSample(stamps[i-1])
+						prev.AppendSample(prevStamp)
 					}
 					b.Append(prev.Slice(0, al.Capacity-al.Length))
 				}); p {
